@@ -267,6 +267,8 @@ pub fn run(ctx: &mut Ctx) -> Result<(), Violation> {
                 Checked per case: exists/all tables against cofactor or/and, support disjoint from V, invariance under reversing/rotating/doubling/deduplicating V, identity when V misses the support, single-variable elimination, duality, and (sampled) the same through `exists|any|forall|all V # dnf(f)` text. \
                 Non-trivial = V meets the support of f and (the result is non-constant, or V has a repeated or absent variable); distinct by serialized case. Operand provenance: created in the environment through mk_choice (default), or - in a share of the random cases and in dedicated stages - plain values that belong to no environment / nodes of another environment (what BDD::<usize>::from(named) and the repository's own parser tests produce)."
         .to_string();
+    ctx.rule.push_str(" Wide stage: ");
+    ctx.rule.push_str(crate::wide::RULE);
     ctx.assume("operands interned via mk_choice; oracle = or/and of the two cofactors on truth tables");
 
     let cands = [0usize, 1, 2, 3, 4];
@@ -325,10 +327,15 @@ pub fn run(ctx: &mut Ctx) -> Result<(), Violation> {
         crate::fun::with_operands(mode, || check_case(&c))
     });
     ctx.stage("random-functions-and-lists", false, r)?;
+    let wc = ctx.tier.cases(6_000, 200_000);
+    crate::wide::stage_quant(ctx, "wide-functions-and-long-lists", wc)?;
     Ok(())
 }
 
 pub fn replay(case: &Value) -> Check {
+    if let Some(r) = crate::wide::replay(case) {
+        return r;
+    }
     match Case::from_json(case) {
         Some(c) => crate::fun::with_operands(crate::fun::case_operands(case), || check_case(&c)),
         None => Err(Violation::new("unreadable replay case", case.clone())),
